@@ -43,6 +43,13 @@ theorem C12_merge_eq_bind (ps : List Param) (hnd : (ps.map (·.name)).Nodup) (ar
         (Dict.get?_eq_none_iff kw k).mpr (fun h => hkn (hk k h))
       simp [h1, h2]
 
+/-- on a call Python accepts the up-front binding of the repaired dispatch (quirk `acceptsRejected` off) changes
+nothing -/
+theorem dispatch_of_accepted (q : Quirks) (c : Call) {b : Dict Arg} (hb : bind c.params c.pos c.kw = .ok b) :
+    dispatch q c = (if isSymbolic (c.merged q) then .symbolic (c.merged q)
+      else .concrete (callSpec Arg.lit c.params c.pos c.kw)) := by
+  simp [dispatch, hb, Except.isOk']
+
 /-- **C12_dispatch.** With the repaired flag, on every call Python accepts: no variable written ⇒ the call is
 executed immediately and the body sees Python's binding with defaults applied (the plain result is returned);
 some variable written, positionally or by keyword ⇒ nothing is executed and the condition carries exactly Python's
@@ -54,9 +61,9 @@ theorem C12_dispatch (c : Call) (hwf : c.WF) (b : Dict Arg) (hb : bind c.params 
   have hs := isSymbolic_merged c hb
   constructor
   · intro hv
-    simp [dispatch, hm, hs, hv, callSpec, hb]
+    simp [dispatch_of_accepted _ _ hb, hm, hs, hv, callSpec, hb]
   · intro hv
-    refine ⟨c.paramNames.zip c.pos ++ c.kw, by simp [dispatch, hm, hs, hv], ?_⟩
+    refine ⟨c.paramNames.zip c.pos ++ c.kw, by simp [dispatch_of_accepted _ _ hb, hm, hs, hv], ?_⟩
     have := C12_merge_eq_bind c.params hwf.names_nodup c.pos c.kw hwf.kw_nodup b hb "self" false
     simp only [Bool.false_eq_true, if_false] at this
     rw [mergeArgs_valid hwf.names_nodup hwf.kw_nodup hb] at this
@@ -77,7 +84,7 @@ theorem C12_calls_once (x : Experiment) (hwf : x.call.WF) (b : Dict Arg)
     have hm := merged_none x.call hwf hb
     have hs := isSymbolic_merged x.call hb
     have hd : dispatch Quirks.none x.call = .symbolic (x.call.paramNames.zip x.call.pos ++ x.call.kw) := by
-      simp [dispatch, hm, hs, hv]
+      simp [dispatch_of_accepted _ _ hb, hm, hs, hv]
     simp only [run, spec, hb, hv, hd, if_true]
     have h1 : (assignsFrom x.doms Env.empty x.pre).map (fun e =>
           evalSym Quirks.none x.world x.call.params (x.call.paramNames.zip x.call.pos ++ x.call.kw) x.doms e x.body
@@ -124,21 +131,23 @@ theorem C12_calls_once_log (x : Experiment) (hwf : x.call.WF) (b : Dict Arg)
 /-- whichever quirk is on: outside its trigger the dispatch is the repaired one -/
 theorem dispatch_quirk_eq (q : Quirks) (c : Call) (hwf : c.WF) {b : Dict Arg} (hb : bind c.params c.pos c.kw = .ok b)
     (ht : q.symFnIgnoresFirst = true → trigPositional c = false) : dispatch q c = dispatch Quirks.none c := by
-  obtain ⟨q1, q2⟩ := q
+  obtain ⟨q1, q2, q3⟩ := q
+  rw [dispatch_of_accepted _ _ hb, dispatch_of_accepted _ _ hb]
   cases q1 with
   | false => rfl
   | true =>
     have ht := ht rfl
     cases hk : c.kind with
-    | pred => simp [dispatch, Call.merged, ignoreFirst, hk]
+    | pred => simp [Call.merged, ignoreFirst, hk]
     | symFn =>
       cases hp : c.pos with
-      | nil => simp [dispatch, Call.merged, ignoreFirst, hk, hp, mergeArgs, Quirks.none]
+      | nil => simp [Call.merged, ignoreFirst, hk, hp, mergeArgs, Quirks.none]
       | cons a as =>
+        rw [← hp, ← dispatch_of_accepted _ _ hb, ← dispatch_of_accepted _ _ hb]
         have hv : c.hasVar = false := by simpa [trigPositional, hk, hp] using ht
         have h1 := (C12_dispatch c hwf b hb).1 hv
         rw [h1]
-        have : isSymbolic (c.merged ⟨true, q2⟩) = false := by
+        have : isSymbolic (c.merged ⟨true, q2, q3⟩) = false := by
           simp only [isSymbolic, List.any_eq_false]
           intro kv hkv
           have hw : kv.2 ∈ c.written := by
@@ -147,12 +156,12 @@ theorem dispatch_quirk_eq (q : Quirks) (c : Call) (hwf : c.WF) {b : Dict Arg} (h
             · simp [Call.written, h]
           simp only [Call.hasVar, List.any_eq_false] at hv
           exact hv _ hw
-        simp [dispatch, this, callSpec, hb]
+        simp [dispatch_of_accepted _ _ hb, this, callSpec, hb]
 
 /-- **C12_calls_once_quirks.** The quirk-parameterised statement: under *any* setting of the two quirk flags, on
 every accepted call outside the triggers of the quirks that are on, the model of the code equals the
-specification. (`Quirks.today` gives `C12_calls_once_partial`; `⟨false, true⟩` is the code after the repair of
-F-C12-1; `Quirks.none` gives `C12_calls_once` back.) -/
+specification. (`Quirks.today` gives `C12_calls_once_partial`; `⟨false, true, _⟩` is the code after the repair of
+F-C12-1; the third flag, F-C12-3, concerns only calls Python rejects and is irrelevant here; `Quirks.none` gives `C12_calls_once` back.) -/
 theorem C12_calls_once_quirks (q : Quirks) (x : Experiment) (hwf : x.call.WF) (b : Dict Arg)
     (hb : bind x.call.params x.call.pos x.call.kw = .ok b)
     (h1 : q.symFnIgnoresFirst = true → trigPositional x.call = false)
@@ -166,7 +175,7 @@ theorem C12_calls_once_quirks (q : Quirks) (x : Experiment) (hwf : x.call.WF) (b
   | symbolic d =>
     have hdm : d = x.call.paramNames.zip x.call.pos ++ x.call.kw := by
       have hm := merged_none x.call hwf hb
-      simp only [dispatch, hm] at hdd
+      simp only [dispatch_of_accepted _ _ hb, hm] at hdd
       split at hdd
       · cases hdd; rfl
       · cases hdd
@@ -211,9 +220,58 @@ theorem C12_calls_once_partial (x : Experiment) (hwf : x.call.WF) (b : Dict Arg)
 
 /-- after the repair of F-C12-1 alone: every call shape, positional or not, outside the trigger of F-C12-2 -/
 theorem C12_calls_once_fixed_partial (x : Experiment) (hwf : x.call.WF) (b : Dict Arg)
-    (hb : bind x.call.params x.call.pos x.call.kw = .ok b) (h2 : trigShared x = false) :
-    run ⟨false, true⟩ x = spec x :=
-  C12_calls_once_quirks ⟨false, true⟩ x hwf b hb (fun h => by cases h) (fun _ => h2)
+    (hb : bind x.call.params x.call.pos x.call.kw = .ok b) (h2 : trigShared x = false) (q3 : Bool) :
+    run ⟨false, true, q3⟩ x = spec x :=
+  C12_calls_once_quirks ⟨false, true, q3⟩ x hwf b hb (fun h => by cases h) (fun _ => h2)
+
+/-! ### Calls Python itself rejects (too many positionals, a parameter passed positionally and by keyword, a
+keyword-only parameter passed positionally, an unknown keyword, a missing argument) -/
+
+/-- **C12_rejected.** With quirk `acceptsRejected` off (the wrapper / `__new__` binds the call as written before
+merging): every call Python rejects raises that `TypeError` at the call, whatever variables it contains - nothing is
+merged, nothing is evaluated, the body never runs. -/
+theorem C12_rejected (q : Quirks) (hq : q.acceptsRejected = false) (x : Experiment) (e : BindErr)
+    (hb : bind x.call.params x.call.pos x.call.kw = .error e) :
+    run q x = .concrete (.error e) ∧ spec x = .invalid ∧ (run q x).rejected = true := by
+  have h : run q x = .concrete (.error e) := by
+    simp [run, dispatch, hq, hb, Except.isOk', callSpec]
+  exact ⟨h, by simp [spec, hb], by rw [h]; rfl⟩
+
+/-- **C12_rejected_partial** (the code as it is: no up-front binding). On every call Python rejects that is outside
+the trigger of F-C12-3 - no variable survives the merge, or the merged dictionary is itself no valid keyword call
+(unknown keyword, missing argument) - the `TypeError` is raised at the call or leaves the evaluation at the first
+candidate: no invocation succeeds and no result is returned (`Outcome.rejected`).
+Full statement (false today, `C12_cex_rejected`): the same without the trigger hypothesis. -/
+theorem C12_rejected_partial (q : Quirks) (hq1 : q.symFnIgnoresFirst = false) (x : Experiment) (e : BindErr)
+    (hb : bind x.call.params x.call.pos x.call.kw = .error e)
+    (ht : q.acceptsRejected = true → trigRejected x.call = false) :
+    spec x = .invalid ∧ (run q x).rejected = true := by
+  cases hq : q.acceptsRejected with
+  | false => exact (C12_rejected q hq x e hb).2
+  | true =>
+    refine ⟨by simp [spec, hb], ?_⟩
+    have hm : x.call.merged q = x.call.merged Quirks.none := by
+      simp [Call.merged, ignoreFirst, hq1, Quirks.none]
+    have ht := ht hq
+    simp only [trigRejected, hb, Except.isOk', Bool.not_false, Bool.true_and, Bool.and_eq_false_iff] at ht
+    simp only [run, dispatch, hq, Bool.not_true, Bool.false_and, Bool.false_eq_true, if_false, hm]
+    cases hs : isSymbolic (x.call.merged Quirks.none) with
+    | false => simp [callSpec, hb, Outcome.rejected]
+    | true =>
+      have hd : Except.isOk' (bind x.call.params [] (x.call.merged Quirks.none)) = false := by
+        rcases ht with h | h
+        · rw [hs] at h; cases h
+        · exact h
+      simp only [if_true]
+      rcases sequence_silent ((assignsFrom x.doms Env.empty x.pre).map (fun e' =>
+          evalSym q x.world x.call.params (x.call.merged Quirks.none) x.doms e' x.body x.neg x.sel)) (by
+            intro r hr
+            simp only [List.mem_map] at hr
+            obtain ⟨e', _, rfl⟩ := hr
+            exact evalSym_rejected q x.world x.call.params _ hd x.doms e' x.body x.neg x.sel)
+        with ⟨os, h1, h2⟩ | ⟨err, h1⟩
+      · rw [h1]; simp [Outcome.rejected, h2]
+      · rw [h1]; rfl
 
 /-! ### Independence of class-level knobs and of the evaluation history -/
 
@@ -258,27 +316,27 @@ def bodyParity : List Nat → Nat := fun t => (t.foldl (· + ·) 0) % 2
 
 /-- `f(a, b=8)` called as `f(x)`, `x ∈ {1,2,3}`: the unchanged code binds `x` to `b` and raises `TypeError` -/
 def cexPositional : Experiment :=
-  { call := ⟨.symFn, [⟨"a", none⟩, ⟨"b", some 8⟩], [.var 0 0], []⟩
+  { call := ⟨.symFn, [⟨"a", none, false⟩, ⟨"b", some 8, false⟩], [.var 0 0], []⟩
     doms := fun _ => [1, 2, 3], pre := [], neg := false, body := bodyParity }
 
 /-- `f(a=9, b=8)` called as `f(x)`: every invocation is one position off, `(9, x)` instead of `(x, 8)` -/
 def cexShifted : Experiment :=
-  { cexPositional with call := ⟨.symFn, [⟨"a", some 9⟩, ⟨"b", some 8⟩], [.var 0 0], []⟩ }
+  { cexPositional with call := ⟨.symFn, [⟨"a", some 9, false⟩, ⟨"b", some 8, false⟩], [.var 0 0], []⟩ }
 
 /-- `f(a)` called as `f(x)`: the variable is not recognised and the body runs at construction time on the variable -/
 def cexExecuted : Experiment :=
-  { cexPositional with call := ⟨.symFn, [⟨"a", none⟩], [.var 0 0], []⟩ }
+  { cexPositional with call := ⟨.symFn, [⟨"a", none, false⟩], [.var 0 0], []⟩ }
 
 /-- `k.m(a=x)` for `def m(self, a)`: the receiver is dropped, evaluation raises `TypeError` -/
 def cexMethod : Experiment :=
-  { cexPositional with call := ⟨.symFn, [⟨"self", none⟩, ⟨"a", none⟩], [.lit 0], [("a", .var 0 0)]⟩ }
+  { cexPositional with call := ⟨.symFn, [⟨"self", none, false⟩, ⟨"a", none, false⟩], [.lit 0], [("a", .var 0 0)]⟩ }
 
 /-- **C12_cex_positional** (finding F-C12-1). -/
 theorem C12_cex_positional :
     (∀ x ∈ [cexPositional, cexShifted, cexExecuted, cexMethod],
       x.call.paramNames.Nodup ∧ x.call.kw.keys.Nodup ∧ (bind x.call.params x.call.pos x.call.kw).isOk
       ∧ trigPositional x.call = true ∧ trigShared x = false
-      ∧ run Quirks.today x ≠ spec x ∧ run ⟨false, true⟩ x = spec x) ∧
+      ∧ run Quirks.today x ≠ spec x ∧ run ⟨false, true, true⟩ x = spec x) ∧
     run Quirks.today cexPositional = .symbolic (.error .missingArgument) ∧
     spec cexPositional = .symbolic (.ok ⟨[[1, 8], [2, 8], [3, 8]], [[1], [3]]⟩) ∧
     run Quirks.today cexShifted = .symbolic (.ok ⟨[[9, 1], [9, 2], [9, 3]], [[2]]⟩) ∧
@@ -288,7 +346,7 @@ theorem C12_cex_positional :
 
 /-- `f(a, b)` called as `f(a=x, b=x)`, `x ∈ {1,2,3}` -/
 def cexShared : Experiment :=
-  { call := ⟨.symFn, [⟨"a", none⟩, ⟨"b", none⟩], [], [("a", .var 0 0), ("b", .var 0 0)]⟩
+  { call := ⟨.symFn, [⟨"a", none, false⟩, ⟨"b", none, false⟩], [], [("a", .var 0 0), ("b", .var 0 0)]⟩
     doms := fun _ => [1, 2, 3], pre := [], neg := false, body := fun t => (t.headD 0) % 2 }
 
 /-- **C12_cex_shared** (finding F-C12-2): nine invocations instead of three, on pairs of *different* values of the
@@ -300,7 +358,7 @@ theorem C12_cex_shared :
     ∧ run Quirks.today cexShared = .symbolic (.ok
         ⟨[[1, 1], [1, 2], [1, 3], [2, 1], [2, 2], [2, 3], [3, 1], [3, 2], [3, 3]], [[1], [2], [3], [1], [2], [3]]⟩)
     ∧ spec cexShared = .symbolic (.ok ⟨[[1, 1], [2, 2], [3, 3]], [[1], [3]]⟩)
-    ∧ run ⟨true, false⟩ cexShared = spec cexShared
+    ∧ run ⟨true, false, true⟩ cexShared = spec cexShared
     ∧ run Quirks.today { cexShared with pre := [0] } = spec { cexShared with pre := [0] } := by
   decide
 
@@ -310,7 +368,7 @@ theorem C12_cex_shared :
 well-formed, outside both triggers — the hypotheses of `C12_calls_once_partial` — and the outcome is a proper subset
 of six invocations -/
 def exPred : Experiment :=
-  { call := ⟨.pred, [⟨"a", none⟩, ⟨"b", some 8⟩, ⟨"c", some 9⟩], [.var 0 0], [("c", .var 1 0)]⟩
+  { call := ⟨.pred, [⟨"a", none, false⟩, ⟨"b", some 8, false⟩, ⟨"c", some 9, false⟩], [.var 0 0], [("c", .var 1 0)]⟩
     doms := fun i => if i = 0 then [1, 2, 3] else [4, 5], pre := [1], neg := false, body := bodyParity }
 
 example : exPred.call.paramNames.Nodup ∧ exPred.call.kw.keys.Nodup
@@ -323,13 +381,13 @@ example : exPred.call.paramNames.Nodup ∧ exPred.call.kw.keys.Nodup
 /-- hypotheses of `C12_merge_eq_bind` / `C12_dispatch` on a call with positionals, keywords and a default left out,
 and on calls Python rejects (which the theorems do not speak about) -/
 example :
-    bind [⟨"a", none⟩, ⟨"b", some 8⟩, ⟨"c", some 9⟩] [1] [("c", 2)] = .ok [("a", 1), ("c", 2)]
+    bind [⟨"a", none, false⟩, ⟨"b", some 8, false⟩, ⟨"c", some 9, false⟩] [1] [("c", 2)] = .ok [("a", 1), ("c", 2)]
     ∧ mergeArgs ["self", "a", "b", "c"] true [1] [("c", 2)] = [("a", 1), ("c", 2)]
     ∧ mergeArgs ["a", "b", "c"] true [1] [("c", 2)] = [("b", 1), ("c", 2)]
-    ∧ bind [⟨"a", none⟩] [1, 2] ([] : Dict Nat) = .error .tooManyPositional
-    ∧ bind [⟨"a", none⟩] [1] [("a", 2)] = .error .multipleValues
-    ∧ bind [⟨"a", none⟩, ⟨"b", none⟩] [1] ([] : Dict Nat) = .error .missingArgument
-    ∧ bind [⟨"a", none⟩] [] [("z", 2)] = .error .unexpectedKeyword := by
+    ∧ bind [⟨"a", none, false⟩] [1, 2] ([] : Dict Nat) = .error .tooManyPositional
+    ∧ bind [⟨"a", none, false⟩] [1] [("a", 2)] = .error .multipleValues
+    ∧ bind [⟨"a", none, false⟩, ⟨"b", none, false⟩] [1] ([] : Dict Nat) = .error .missingArgument
+    ∧ bind [⟨"a", none, false⟩] [] [("z", 2)] = .error .unexpectedKeyword := by
   decide
 
 /-- a concrete call: executed immediately with defaults applied -/
@@ -341,7 +399,7 @@ example : run Quirks.today { exPred with call := { exPred.call with pos := [.lit
 (1 ↦ state 2, 2 ↦ state 3, 3 ↦ state 4), evaluated again: hypotheses of `C12_history` hold and the two evaluations
 differ — the second one sees the new states (accessor 1 adds 100) and returns the complementary candidates -/
 def exHistory : Experiment :=
-  { call := ⟨.pred, [⟨"a", none⟩], [.var 0 1], []⟩
+  { call := ⟨.pred, [⟨"a", none, false⟩], [.var 0 1], []⟩
     doms := fun _ => [1, 2, 3], pre := [0], neg := false, body := bodyParity }
 
 example : exHistory.call.paramNames.Nodup ∧ exHistory.call.kw.keys.Nodup
@@ -350,5 +408,107 @@ example : exHistory.call.paramNames.Nodup ∧ exHistory.call.kw.keys.Nodup
     ∧ runHistory Quirks.today [("is_expensive", true)] exHistory [] [id, fun o => o + 1]
       = [.symbolic (.ok ⟨[[101], [102], [103]], [[1], [3]]⟩), .symbolic (.ok ⟨[[102], [103], [104]], [[2]]⟩)] := by
   decide
+
+/-! ### F-C12-3: calls Python rejects that the symbolic path accepts silently (tests by `decide`) -/
+
+/-- `f(a, b=8)` called as `f(x, 1, 2)`: Python: "takes from 1 to 2 positional arguments but 3 were given"; the
+surplus `2` is dropped by `zip` -/
+def cexTooMany : Experiment :=
+  { call := ⟨.symFn, [⟨"a", none, false⟩, ⟨"b", some 8, false⟩], [.var 0 0, .lit 1, .lit 2], []⟩
+    doms := fun _ => [1, 2, 3], pre := [], neg := false, body := bodyParity }
+
+/-- `f(a, b=8)` called as `f(1, a=x)`: Python: "got multiple values for argument 'a'"; `update(kwargs)` overwrites
+the positional `1` -/
+def cexMultiple : Experiment :=
+  { cexTooMany with call := ⟨.symFn, [⟨"a", none, false⟩, ⟨"b", some 8, false⟩], [.lit 1], [("a", .var 0 0)]⟩ }
+
+/-- `h(a, *, b)` called as `h(x, 2)`: Python: "takes 1 positional argument but 2 were given"; `zip` pairs the
+keyword-only name with the positional value -/
+def cexKwOnly : Experiment :=
+  { cexTooMany with call := ⟨.pred, [⟨"a", none, false⟩, ⟨"b", none, true⟩], [.var 0 0, .lit 2], []⟩ }
+
+/-- `f(a, b=8)` called as `f(x, a=2)`: the keyword overwrites the only variable, so the call is executed and raises -
+outside the trigger, as the property demands -/
+def exMultipleConcrete : Experiment :=
+  { cexTooMany with call := ⟨.symFn, [⟨"a", none, false⟩, ⟨"b", some 8, false⟩], [.var 0 0], [("a", .lit 2)]⟩ }
+
+/-- `f(a, b=8)` called as `f(x, z=1)`: unknown keyword, the `TypeError` leaves the evaluation - outside the trigger -/
+def exUnexpected : Experiment :=
+  { cexTooMany with call := ⟨.symFn, [⟨"a", none, false⟩, ⟨"b", some 8, false⟩], [.var 0 0], [("z", .lit 1)]⟩ }
+
+/-- **C12_cex_rejected** (finding F-C12-3). -/
+theorem C12_cex_rejected :
+    (∀ x ∈ [cexTooMany, cexMultiple, cexKwOnly],
+      x.call.paramNames.Nodup ∧ x.call.kw.keys.Nodup ∧ Except.isOk' (bind x.call.params x.call.pos x.call.kw) = false
+      ∧ trigRejected x.call = true ∧ spec x = .invalid
+      ∧ (run ⟨false, true, true⟩ x).rejected = false ∧ (run ⟨false, true, false⟩ x).rejected = true) ∧
+    run ⟨false, true, true⟩ cexTooMany = .symbolic (.ok ⟨[[1, 1], [2, 1], [3, 1]], [[2]]⟩) ∧
+    run ⟨false, true, true⟩ cexMultiple = .symbolic (.ok ⟨[[1, 8], [2, 8], [3, 8]], [[1], [3]]⟩) ∧
+    run ⟨false, true, true⟩ cexKwOnly = .symbolic (.ok ⟨[[1, 2], [2, 2], [3, 2]], [[1], [3]]⟩) := by
+  decide
+
+/-- non-vacuity of `C12_rejected_partial`: rejected calls outside the trigger, with the two ways of being rejected -/
+example :
+    (∀ x ∈ [exMultipleConcrete, exUnexpected],
+      Except.isOk' (bind x.call.params x.call.pos x.call.kw) = false ∧ trigRejected x.call = false) ∧
+    run ⟨false, true, true⟩ exMultipleConcrete = .concrete (.error .multipleValues) ∧
+    run ⟨false, true, true⟩ exUnexpected = .symbolic (.error .unexpectedKeyword) := by
+  decide
+
+/-- keyword-only parameters: `P(a, *, b, c=9)` called `P(x, b=y)` is accepted, bound by keyword, the default of the
+keyword-only `c` applied at each invocation; passed positionally it is rejected; a missing keyword-only argument is
+rejected -/
+example :
+    bind [⟨"a", none, false⟩, ⟨"b", none, true⟩, ⟨"c", some 9, true⟩] [1] [("b", 2)] = .ok [("a", 1), ("b", 2)]
+    ∧ bind [⟨"a", none, false⟩, ⟨"b", none, true⟩, ⟨"c", some 9, true⟩] [1, 2] ([] : Dict Nat) = .error .tooManyPositional
+    ∧ bind [⟨"a", none, false⟩, ⟨"b", none, true⟩, ⟨"c", some 9, true⟩] [1] ([] : Dict Nat) = .error .missingArgument
+    ∧ run ⟨false, true, true⟩ { exPred with call := ⟨.pred, [⟨"a", none, false⟩, ⟨"b", none, true⟩, ⟨"c", some 9, true⟩],
+        [.var 0 0], [("b", .var 1 0)]⟩ }
+      = .symbolic (.ok ⟨[[1, 4, 9], [2, 4, 9], [3, 4, 9], [1, 5, 9], [2, 5, 9], [3, 5, 9]], [[2, 4], [1, 5], [3, 5]]⟩) := by
+  decide
+
+/-! ### `isinstance` by the class statements of `symbolic.py` (used by the obligations regenerated from the source) -/
+
+/-- if, by the class table, `Variable`, `Attribute`, `Index` and `Call` derive from `cls` and a plain object does
+not, then `isinstance(a, cls)` is `Arg.isVar` for every written argument -/
+theorem isInstance_eq_isVar (t : ClassTable) (cls : String)
+    (h : (isSubclass t "Variable" cls && isSubclass t "Attribute" cls && isSubclass t "Index" cls
+      && isSubclass t "Call" cls && !isSubclass t "object" cls) = true) (a : Arg) :
+    isInstance t a cls = a.isVar := by
+  simp only [Bool.and_eq_true, Bool.not_eq_true'] at h
+  obtain ⟨⟨⟨⟨h1, h2⟩, h3⟩, h4⟩, h5⟩ := h
+  cases a with
+  | lit v => simp [isInstance, Arg.pyClass, Arg.isVar, h5]
+  | var i k =>
+    simp only [isInstance, Arg.pyClass, Arg.isVar]
+    split
+    · exact h1
+    · split
+      · exact h2
+      · split
+        · exact h3
+        · exact h4
+
+/-- hence a decision of the shape `any(isinstance(v, cls) for v in merged.values())` is `isSymbolic` -/
+theorem any_isInstance_eq_isSymbolic (t : ClassTable) (cls : String)
+    (h : (isSubclass t "Variable" cls && isSubclass t "Attribute" cls && isSubclass t "Index" cls
+      && isSubclass t "Call" cls && !isSubclass t "object" cls) = true) (d : Dict Arg) :
+    (Dict.vals d).any (fun a => isInstance t a cls) = isSymbolic d := by
+  simp only [Dict.vals, List.any_map, isSymbolic]
+  congr 1
+  funext kv
+  exact isInstance_eq_isVar t cls h kv.2
+
+/-- the dispatch of the code as it is depends on the quirk setting only through the two construction-time flags -/
+theorem dispatch_congr (q q' : Quirks) (h1 : q.symFnIgnoresFirst = q'.symFnIgnoresFirst)
+    (h3 : q.acceptsRejected = q'.acceptsRejected) (c : Call) : dispatch q c = dispatch q' c := by
+  have hm : c.merged q = c.merged q' := by
+    simp only [Call.merged, ignoreFirst, h1]
+  simp only [dispatch, hm, h3]
+
+/-- on accepted calls, with the positional repair in place, the dispatch is the repaired one whatever the other flags -/
+theorem dispatch_accepted_eq_none (q : Quirks) (hq : q.symFnIgnoresFirst = false) (c : Call) (hwf : c.WF)
+    {b : Dict Arg} (hb : bind c.params c.pos c.kw = .ok b) : dispatch q c = dispatch Quirks.none c :=
+  dispatch_quirk_eq q c hwf hb (fun h => by rw [hq] at h; cases h)
 
 end KrroodVerif.Pred
